@@ -164,8 +164,59 @@ func (f *folder) table(g *ssa.Global) (fval, bool) {
 		}
 		return fval{}, false
 	}
+	// struct elements: {first, second, ...} with constant fields (a table of records)
+	mkStruct := func(e ast.Expr, st *types.Struct) (fval, bool) {
+		scl, ok := e.(*ast.CompositeLit)
+		if !ok {
+			return fval{}, false
+		}
+		out := fval{kind: 'S', tup: make([]fval, st.NumFields())}
+		for i := 0; i < st.NumFields(); i++ {
+			out.tup[i] = zeroFval(st.Field(i).Type(), 0)
+		}
+		for i, el := range scl.Elts {
+			idx, val := i, el
+			if kv, isKV := el.(*ast.KeyValueExpr); isKV {
+				id, ok := kv.Key.(*ast.Ident)
+				if !ok {
+					return fval{}, false
+				}
+				idx = -1
+				for j := 0; j < st.NumFields(); j++ {
+					if st.Field(j).Name() == id.Name {
+						idx = j
+					}
+				}
+				val = kv.Value
+			}
+			if idx < 0 || idx >= st.NumFields() {
+				return fval{}, false
+			}
+			if v, ok := mk(val, st.Field(idx).Type()); ok {
+				out.tup[idx] = v
+			} else {
+				out.tup[idx] = fval{} // not a constant: unknown
+			}
+		}
+		return out, true
+	}
 	switch t := t.(type) {
 	case *types.Array:
+		if est, isStruct := t.Elem().Underlying().(*types.Struct); isStruct {
+			out := fval{kind: 'a', arr: make([]fval, t.Len())}
+			for i, el := range cl.Elts {
+				if _, isKV := el.(*ast.KeyValueExpr); isKV || i >= len(out.arr) {
+					return fval{}, false
+				}
+				v, ok := mkStruct(el, est)
+				if !ok {
+					return fval{}, false
+				}
+				out.arr[i] = v
+			}
+			f.tables[g] = out
+			return out, true
+		}
 		out := fval{kind: 'a', arr: make([]fval, t.Len())}
 		bits, uns, _ := intInfo(t.Elem())
 		for i := range out.arr {
